@@ -13,3 +13,7 @@ def rules(ctx):
     S.c03_r4_no_publish_on_abort(ctx)
     S.c05_r6_drop(ctx)
     S.c05_r7_savepoint_symmetry(ctx)
+    S.c06_r1_freed_merged(ctx)
+    S.c02_r4_who_frees(ctx)
+    S.c06_r6_restore(ctx)
+    S.c07_rules(ctx)
